@@ -56,7 +56,7 @@ Nodes(depth, pos) ==
            b \in {{}} \cup {{<<pt, t>>} : pt \in 1..pos, t \in Threads},
            c \in Ctl}
    ELSE {})
-  \cup (IF "L" \in Kinds /\ depth < MaxDepth THEN {[k |-> "L", n |-> n] : n \in 1..2} ELSE {})
+  \cup (IF "L" \in Kinds /\ depth < MaxDepth THEN {[k |-> "L", n |-> n] : n \in {1, 2, 7}} ELSE {})
   \cup (IF "P" \in Kinds /\ depth < MaxDepth THEN {[k |-> "P"]} ELSE {})
 
 (* a deterministic pseudo-random tree: the node at a prefix is a function of a hash of the prefix *)
@@ -78,7 +78,7 @@ NodeAt(d, sl, depth, pos) ==
       bt == IF pos >= 1 /\ Digit(h, 13, 3) # 0 THEN {<<Digit(h, 17, pos) + 1, Digit(h, 19, NThreads) + 1>>} ELSE {}
       c  == LET q == Digit(h, 23, 9) IN IF q = 0 THEN "critical" ELSE IF q = 1 THEN "explore" ELSE IF q = 2 /\ Digit(h, 29, 3) = 0 THEN "skip" ELSE ""
   IN IF kind = "S" THEN [k |-> "S", seed |-> seed, bt |-> bt, ctl |-> IF c \in Ctl THEN c ELSE ""]
-     ELSE IF kind = "L" THEN [k |-> "L", n |-> 1 + Digit(h, 31, 3)]
+     ELSE IF kind = "L" THEN [k |-> "L", n |-> IF Digit(h, 37, 8) = 0 THEN 7 ELSE 1 + Digit(h, 31, 3)]   \* 7 = MAX_ATOMIC_HISTORY
      ELSE [k |-> "P"]
 
 Init == /\ salt \in (IF NSalts = 0 THEN {0} ELSE 1..NSalts)
